@@ -90,7 +90,7 @@ def alphabet(wide, used):
 def used_after(used, o):
     if o[0] in ('add', 'pluso'):
         return min(5, max(used, o[1] + 1))
-    if o[0] in ('iaddseq', 'plusseq'):
+    if o[0] in ('iaddseq', 'plusseq', 'newseq'):
         return min(5, max([used] + [k + 1 for k in o[1]]))
     return used
 
@@ -132,6 +132,8 @@ def gop(o):
         return 'XPlusSeq [' + '; '.join(gobj(j) for j in o[1]) + ']'
     if k == 'rot':
         return 'XRot'
+    if k == 'newseq':
+        return 'XNewSeq [' + '; '.join(gobj(j) for j in o[1]) + ']'
     raise ValueError(o)
 
 
@@ -162,6 +164,7 @@ class World:
                     self.oid = oid
                     self.name = name
             self.new = lambda: NamedObjectCollection(obj_type=Base)
+            self.new_from = lambda objs: NamedObjectCollection(objs, obj_type=Base)
         else:
             class Base(Model):
                 def __init__(self, oid, name):
@@ -176,6 +179,7 @@ class World:
                     self.oid = oid
                     self.name = name
             self.new = lambda: ModelCollection(model_type=Base)
+            self.new_from = lambda objs: ModelCollection(objs, model_type=Base)
         cls = {'CBase': Base, 'CDerived': Derived, 'CForeign': Foreign}
         self.objs = {k: cls[c](k, f'n{n}') for k, (n, c) in OBJ_TABLE.items()}
         self.v = [self.new(), self.new(), self.new()]
@@ -241,6 +245,20 @@ class World:
             if k == 'rot':
                 self.v = [y, z, x]
                 return 0
+            if k == 'newseq':
+                lst = [self.objs[j] for j in o[1]]
+                snap = list(lst)
+                before = [self._contents(c_) for c_ in self.v]
+                try:
+                    c = self.new_from(lst if len(self.path) % 2 == 0 else tuple(lst))
+                finally:
+                    if lst != snap or [self._contents(c_) for c_ in self.v] != before:
+                        self.bad.append(('NamedObjectCollection.__init__', 'modifies-argument-or-other-collection', self.path + [o]))
+                if c.objects is lst or len(c.objects) != len(snap) or any(a is not b for a, b in zip(c.objects, snap)):
+                    self.bad.append(('NamedObjectCollection.__init__', 'wrong-objects-or-aliases-caller-list', self.path + [o]))
+                lst.append(self.objs[0])          # the caller keeps and mutates the list
+                self.v = [c, x, y]
+                return 50
         except Exception as ex:
             return -errcode(ex)
         raise ValueError(o)
@@ -445,8 +463,10 @@ def random_history(rng, n):
             ops.append(('plusy',))
         elif r < 0.92:
             ops.append(('plusx',))
-        elif r < 0.96:
+        elif r < 0.94:
             ops.append(('plusseq', tuple(rng.randrange(9) for _ in range(rng.randrange(0, 4)))))
+        elif r < 0.97:
+            ops.append(('newseq', tuple(rng.randrange(9) for _ in range(rng.randrange(0, 4)))))
         else:
             ops.append(('rot',))
     return ops
@@ -458,6 +478,8 @@ COLL_CORPUS = [
     [('add', 0), ('rot',), ('add', 1), ('plusy',), ('pop', None), ('rot',), ('pop', None)],
     [('add', 0), ('add', 5), ('popi', 0), ('add', 8), ('add', 2), ('popn', 2), ('iaddx',), ('popn', 0)],
     [('iaddseq', (6, 0)), ('iaddseq', (0, 6)), ('iaddseq', (7,)), ('iaddseq', ()), ('plusseq', (1, 7)), ('add', 7)],
+    [('newseq', (0, 1, 2, 3)), ('popi', -3), ('popi', -5), ('popi', 4), ('popn', 7), ('newseq', (5, 7)), ('newseq', ()),
+     ('newseq', (4, 8, 2)), ('popn', 2), ('plusx',), ('popi', -1), ('newseq', (0, 0))],
 ]
 
 
@@ -1007,6 +1029,23 @@ class CfgWorld:
             self.insts.append(config.Config.from_dict(self.users[u]))
         self._do(f)
 
+    def from_yaml(self, u):
+        """Config.from_yaml of a file holding users[u]: loading creates fresh dictionaries, which the model
+        reads as the deep copy of the file content (same step as from_dict)"""
+        import tempfile
+        import yaml
+        from skyllh.core import config
+        self.gops.append(f'WFromDict {u}')
+
+        def f():
+            with tempfile.NamedTemporaryFile('w', suffix='.yaml', delete=False) as fh:
+                yaml.safe_dump(self.users[u], fh, sort_keys=False)
+            try:
+                self.insts.append(config.Config.from_yaml(fh.name))
+            finally:
+                os.unlink(fh.name)
+        self._do(f)
+
     def mutate(self, i, e):
         """e = (method, args) ; returns nothing, records the Gallina step"""
         from astropy import units
@@ -1105,6 +1144,8 @@ def cfg_scenario(ctx, codes, base, constr, udict, e1, e2):
         for c in constr:
             if c == 'new':
                 w.new()
+            elif c == 'yaml':
+                w.from_yaml(u)
             else:
                 w.from_dict(u)
         steps = [lambda: w.mutate(0, e1), lambda: w.mutate(1, e2),
@@ -1166,6 +1207,7 @@ def run_config(ctx):
     constrs = [('new', 'new'), ('from', 'from'), ('new', 'from'), ('from', 'new')]
     if not ctx.thorough():
         constrs = [('from', 'from'), ('new', 'from')]
+    constrs += [('yaml', 'from'), ('new', 'yaml')]
     scen = []
     for ci, constr in enumerate(constrs):
         for a, e1 in enumerate(edits):
@@ -1174,6 +1216,10 @@ def run_config(ctx):
                     us = range(len(udicts))
                 else:
                     us = [(a + b + ci) % len(udicts)]
+                if 'yaml' in constr:
+                    if not ctx.thorough() and b != (a * 7 + 3) % len(edits):
+                        continue
+                    us = [0, 2] if ctx.thorough() else [(0, 2)[(a + ci) % 2]]     # YAML-safe values only
                 for ui in us:
                     scen.append((constr, ui, a, b))
     terms, impl, keep = [], [], []
